@@ -22,7 +22,7 @@ from pydantic import ValidationError  # noqa: E402
 
 PREFIXES = ["a", "", "é", "a b", "A", "a.b", "a1", "http", "[a"]
 IDENTIFIERS = ["", "1", "x:y", ":", "\t", '"', "\n", "\r", "é", " s ", "0:", "//e.org/1", "b]", "a:1", "A:a:1"]
-NAMES = [None, "N", "M"]
+NAMES = [None, "N", "M", ""]
 CLASSES = {"ReferenceTuple": ReferenceTuple, "Reference": Reference, "NamableReference": NamableReference, "NamedReference": NamedReference}
 _TMP = None
 
